@@ -137,6 +137,10 @@ def run(ctx):
 
     # 4. binding B: seeded byte streams -> classified events -> TLC against the table
     inc += run_streams(ctx, rows)
+    # 5. well-formed PUBs on connections that are being sent messages at the same time (every 53rd with its size field in two
+    #    pieces): each is answered OK and enqueues exactly its body
+    import corelib
+    corelib.pub_while_consuming(ctx, feats=[""] if quick else ["", "", "snappy", ""])
 
     ctx.cov["rule"] = ("evaluations = commands sent to a real nsqd over TCP; a case is one command-class sequence of the "
                        "bounded model (distinct by its classes; all are non-trivial: each ends in a class whose outcome "
